@@ -544,4 +544,568 @@ theorem getMem_den : (rs : List Rep) → wfAll rs → ∀ r ∈ rs, ∀ j, (den 
       · subst hx; exact get_den r h.1 j hv
       · exact getMem_den xs h.2 r (by rcases hr with rfl | hr; exact absurd rfl hx; exact hr) j hv
 end
+
+/-! ## slices -/
+/-- extensional equality of denotations: same length, same elements at every valid index -/
+def SemEq (a b : Sem) : Prop := a.len = b.len ∧ ∀ i, i < USIZE → a.valid i → a.el i = b.el i
+
+/-- `drop start`, then keep the elements before position `end` of the original list -/
+def Sem.dropTake (d : Sem) (start : Nat) (end_ : Option Nat) : Sem :=
+  ⟨match d.len, end_ with
+    | some n, some e => some (min e n - start)
+    | some n, none => some (n - start)
+    | none, some e => some (e - start)
+    | none, none => none,
+   fun i => if i + start < USIZE then d.el (i + start) else oob⟩
+
+theorem len_cases (r : Rep) (h : r.wf) : (∃ n, r.len = .fin n ∧ (den r).len = some n) ∨ (r.len = .inf ∧ (den r).len = none) := by
+  have := len_den r h
+  cases hd : (den r).len with
+  | none => right; rw [hd] at this; exact ⟨this, rfl⟩
+  | some n => left; rw [hd] at this; exact ⟨n, this, rfl⟩
+
+/-- the generic (non-flattening) arm: `Slice(base, start, end2)` -/
+theorem slice_plain (r : Rep) (h : r.wf) (start : Nat) (end2 : Option Nat) (hs : start < USIZE)
+    (hb : match end2 with
+      | some e => start < e ∧ (match r.len with | .fin n => e ≤ n | .inf => e < USIZE | .panic _ => False)
+      | none => r.len = .inf) :
+    (Rep.slice r start end2).wf ∧ SemEq (den (Rep.slice r start end2)) ((den r).dropTake start end2) := by
+  refine ⟨by simp only [Rep.wf]; exact ⟨h, hs, hb⟩, ?_, fun i _ _ => rfl⟩
+  simp only [den, Sem.slice, Sem.dropTake]
+  rcases len_cases r h with ⟨n, h1, h2⟩ | ⟨h1, h2⟩
+  · rw [h2]
+    cases end2 with
+    | none => simp only [] at hb; rw [h1] at hb; cases hb
+    | some e =>
+      simp only [] at hb; rw [h1] at hb; simp only [] at hb
+      simp only [Option.map]; congr 1; omega
+  · rw [h2]
+    cases end2 with
+    | none => rfl
+    | some e => rfl
+
+
+theorem slice_len (origin : Rep) (os : Nat) (oe : Option Nat) :
+    (Rep.slice origin os oe).len = (match oe with
+      | none => .inf
+      | some e => if e < os then .panic "attempt to subtract with overflow" else .fin (e - os)) := by
+  cases oe <;> rfl
+
+/-- the flattening arm: a slice of `Slice(origin, os, oe)` addresses `origin` directly -/
+theorem slice_flatten (origin : Rep) (os : Nat) (oe : Option Nat) (h : (Rep.slice origin os oe).wf)
+    (start : Nat) (end2 : Option Nat) (hfit1 : os + start < USIZE)
+    (hfit2 : ∀ e, end2 = some e → os + e < USIZE)
+    (hb : match end2 with
+      | some e => start < e ∧ (match (Rep.slice origin os oe).len with
+          | .fin n => e ≤ n | .inf => e < USIZE | .panic _ => False)
+      | none => (Rep.slice origin os oe).len = .inf) :
+    (Rep.slice origin (os + start) (end2.map (os + ·))).wf ∧
+    SemEq (den (Rep.slice origin (os + start) (end2.map (os + ·))))
+      ((den (Rep.slice origin os oe)).dropTake start end2) := by
+  simp only [Rep.wf] at h
+  obtain ⟨hw, hos, hoe⟩ := h
+  rw [slice_len] at hb
+  refine ⟨?_, ?_, ?_⟩
+  · simp only [Rep.wf]
+    refine ⟨hw, hfit1, ?_⟩
+    cases end2 with
+    | none =>
+      simp only [Option.map]
+      cases oe with
+      | none => exact hoe
+      | some e' =>
+        simp only [] at hb
+        split at hb <;> cases hb
+    | some e =>
+      simp only [Option.map]
+      simp only [] at hb
+      have hf := hfit2 e rfl
+      cases oe with
+      | none =>
+        simp only [] at hoe hb
+        rw [hoe]; exact ⟨by omega, hf⟩
+      | some e' =>
+        simp only [] at hoe hb
+        have hlt : ¬ e' < os := by omega
+        simp only [hlt, if_false] at hb
+        refine ⟨by omega, ?_⟩
+        cases hol : origin.len with
+        | fin n => rw [hol] at hoe; simp only [] at hoe ⊢; omega
+        | inf => exact hf
+        | panic _ => rw [hol] at hoe; exact hoe.2.elim
+  · simp only [den, Sem.slice, Sem.dropTake]
+    cases oe with
+    | none =>
+      cases end2 with
+      | none => rfl
+      | some e => simp only [Option.map]; congr 1; omega
+    | some e' =>
+      simp only [] at hoe
+      have hlt : ¬ e' < os := by omega
+      cases end2 with
+      | none => simp only [hlt, if_false] at hb; cases hb
+      | some e =>
+        simp only [hlt, if_false] at hb
+        simp only [Option.map]; congr 1; omega
+  · intro i _ _
+    simp only [den, Sem.slice, Sem.dropTake]
+    by_cases h1 : i + (os + start) < USIZE
+    · have h2 : i + start < USIZE := by omega
+      have h3 : i + start + os < USIZE := by omega
+      have e1 : i + (os + start) = i + start + os := by omega
+      simp [h1, h2, h3, e1]
+    · by_cases h2 : i + start < USIZE
+      · have h3 : ¬ i + start + os < USIZE := by omega
+        simp [h1, h2, h3]
+      · simp [h1, h2]
+
+
+theorem sliceOf_spec (r : Rep) (h : r.wf) (start : Nat) (end2 : Option Nat) (hs : start < USIZE)
+    (hb : match end2 with
+      | some e => start < e ∧ (match r.len with | .fin n => e ≤ n | .inf => e < USIZE | .panic _ => False)
+      | none => r.len = .inf) :
+    (r.sliceOf start end2).wf ∧ SemEq (den (r.sliceOf start end2)) ((den r).dropTake start end2) := by
+  cases r with
+  | slice origin os oe =>
+    cases end2 with
+    | none =>
+      simp only [Rep.sliceOf, Bool.and_true]
+      by_cases hc : os + start < USIZE
+      · simp only [hc, decide_true, if_true]
+        exact (slice_flatten origin os oe h start none hc (by intro e he; cases he) hb)
+      · simp only [hc, decide_false]
+        exact slice_plain _ h start none hs hb
+    | some e =>
+      simp only [Rep.sliceOf]
+      by_cases hc : os + start < USIZE ∧ os + e < USIZE
+      · simp only [hc.1, hc.2, decide_true, Bool.and_self, if_true]
+        exact (slice_flatten origin os oe h start (some e) hc.1 (by intro e' he; cases he; exact hc.2) hb)
+      · have : (decide (os + start < USIZE) && decide (os + e < USIZE)) = false := by
+          simp only [Bool.and_eq_false_imp, decide_eq_true_eq, decide_eq_false_iff_not]; intro h1 h2; exact hc ⟨h1, h2⟩
+        simp only [this]
+        exact slice_plain _ h start (some e) hs hb
+  | empty => exact slice_plain _ h start end2 hs hb
+  | array xs => exact slice_plain _ h start end2 hs hb
+  | range a b c => exact slice_plain _ h start end2 hs hb
+  | map a f => exact slice_plain _ h start end2 hs hb
+  | mapGet a b g => exact slice_plain _ h start end2 hs hb
+  | zip rs => exact slice_plain _ h start end2 hs hb
+  | chain ps ms => exact slice_plain _ h start end2 hs hb
+  | count => exact slice_plain _ h start end2 hs hb
+
+
+theorem nil_eq_dropTake_zero (d : Sem) (start : Nat) (end_ : Option Nat)
+    (h : (d.dropTake start end_).len = some 0) : SemEq Sem.nil (d.dropTake start end_) := by
+  refine ⟨by rw [h]; rfl, ?_⟩
+  intro i _ hv; simp [Sem.valid, optValid, Sem.nil] at hv
+
+/-- `XSequence::slice`: never fails on a well-formed sequence; the whole-sequence shortcut, the empty result, the
+plain slice and the flattened slice of a slice all denote `drop start`/`take` of the original list -/
+theorem mkSlice_spec (r : Rep) (h : r.wf) (start : Nat) (end_ : Option Nat) (hs : start < USIZE)
+    (he : ∀ e, end_ = some e → e < USIZE) :
+    match r.mkSlice start end_ with
+    | .ok none => SemEq (den r) ((den r).dropTake start end_)
+    | .ok (some s) => s.wf ∧ SemEq (den s) ((den r).dropTake start end_)
+    | .err _ => False
+    | .panic _ => False := by
+  rcases len_cases r h with ⟨n, h1, h2⟩ | ⟨h1, h2⟩
+  · -- finite
+    unfold Rep.mkSlice
+    rw [h1]
+    cases end_ with
+    | none =>
+      simp only [decide_true, true_and]
+      by_cases h0 : start = 0
+      · subst h0
+        simp only [if_true]
+        refine ⟨by simp [Sem.dropTake, h2], fun i hi _ => ?_⟩
+        simp [Sem.dropTake, hi]
+      · simp only [h0, if_false, if_true]
+        by_cases hge : start ≥ n
+        · simp only [hge, decide_true, Bool.or_self, if_true]
+          exact ⟨trivial, nil_eq_dropTake_zero _ _ _ (by simp [Sem.dropTake, h2]; omega)⟩
+        · simp only [hge, decide_false, Bool.or_self, Bool.false_eq_true, if_false]
+          have := sliceOf_spec r h start (some n) hs (by simp only []; rw [h1]; simp only []; omega)
+          refine ⟨this.1, this.2.1.trans (by simp [Sem.dropTake, h2]), fun i hi hv => (this.2.2 i hi hv).trans rfl⟩
+    | some e =>
+      by_cases hen : e ≥ n
+      · simp only [hen, decide_true, true_and]
+        by_cases h0 : start = 0
+        · subst h0
+          simp only [if_true]
+          refine ⟨by simp [Sem.dropTake, h2]; omega, fun i hi _ => ?_⟩
+          simp [Sem.dropTake, hi]
+        · simp only [h0, if_false, if_true]
+          by_cases hge : start ≥ n
+          · simp only [hge, decide_true, Bool.or_self, if_true]
+            exact ⟨trivial, nil_eq_dropTake_zero _ _ _ (by simp [Sem.dropTake, h2]; omega)⟩
+          · simp only [hge, decide_false, Bool.or_self, Bool.false_eq_true, if_false]
+            have := sliceOf_spec r h start (some n) hs (by simp only []; rw [h1]; simp only []; omega)
+            refine ⟨this.1, this.2.1.trans (by simp [Sem.dropTake, h2]; omega), fun i hi hv => (this.2.2 i hi hv).trans rfl⟩
+      · simp only [hen, decide_false, Bool.false_eq_true, false_and, if_false]
+        by_cases hge : start ≥ e
+        · simp only [hge, decide_true, Bool.true_or, if_true]
+          exact ⟨trivial, nil_eq_dropTake_zero _ _ _ (by simp [Sem.dropTake, h2]; omega)⟩
+        · have hge2 : ¬ start ≥ n := by omega
+          simp only [hge, hge2, decide_false, Bool.or_self, Bool.false_eq_true, if_false]
+          exact sliceOf_spec r h start (some e) hs (by simp only []; rw [h1]; simp only []; omega)
+  · -- infinite
+    unfold Rep.mkSlice
+    rw [h1]
+    cases end_ with
+    | none =>
+      simp only [decide_true, true_and]
+      by_cases h0 : start = 0
+      · subst h0
+        simp only [if_true]
+        refine ⟨by simp [Sem.dropTake, h2], fun i hi _ => ?_⟩
+        simp [Sem.dropTake, hi]
+      · simp only [h0, if_false, if_true, Bool.or_self, Bool.false_eq_true]
+        exact sliceOf_spec r h start none hs h1
+    | some e =>
+      simp only [Bool.false_eq_true, false_and, if_false]
+      by_cases hge : start ≥ e
+      · simp only [hge, decide_true, Bool.or_false, if_true]
+        exact ⟨trivial, nil_eq_dropTake_zero _ _ _ (by simp [Sem.dropTake, h2]; omega)⟩
+      · simp only [hge, decide_false, Bool.or_self, Bool.false_eq_true, if_false]
+        exact sliceOf_spec r h start (some e) hs (by simp only []; rw [h1]; simp only []; exact ⟨by omega, he e rfl⟩)
+
+
+/-! ## chains -/
+theorem wfAll_append : ∀ (l1 l2 : List Rep), wfAll l1 → wfAll l2 → wfAll (l1 ++ l2)
+  | [], _, _, h2 => h2
+  | r :: rs, l2, h1, h2 => by
+      simp only [wfAll, List.cons_append] at h1 ⊢
+      exact ⟨h1.1, wfAll_append rs l2 h1.2 h2⟩
+
+/-- shifting the midpoints of a well-formed chain by `T` -/
+theorem chainOk_shift : ∀ (parts : List Rep) (mids : List Nat) (acc T : Nat),
+    chainOk parts mids acc →
+    (match lastLen parts with | .fin l => l + mids.getLast?.getD acc + T < USIZE | _ => True) →
+    chainOk parts (mids.map (· + T)) (acc + T)
+  | [], _, _, _, h, _ => by simp [chainOk] at h
+  | [r], [], acc, T, h, hb => by
+      simp only [chainOk, List.map] at h ⊢
+      simp only [lastLen] at hb
+      cases hr : r.len with
+      | fin n => rw [hr] at h hb; simp only [List.getLast?_nil, Option.getD_none] at hb; simp only [] at h ⊢; omega
+      | inf => trivial
+      | panic _ => rw [hr] at h; exact h
+  | [r], m :: ms, _, _, h, _ => by simp [chainOk] at h
+  | r :: r2 :: rs, [], _, _, h, _ => by simp [chainOk] at h
+  | r :: r2 :: rs, m :: ms, acc, T, h, hb => by
+      simp only [chainOk, List.map] at h ⊢
+      obtain ⟨⟨n, hn, hpos, hm⟩, hrest⟩ := h
+      refine ⟨⟨n, hn, hpos, by omega⟩, ?_⟩
+      apply chainOk_shift (r2 :: rs) ms m T hrest
+      rw [lastLen_cons r (r2 :: rs) (by simp), getLast_getD] at hb
+      exact hb
+
+/-- splicing: the parts of a well-formed chain ending at `T`, followed by parts that start at `T` -/
+theorem chainOk_append : ∀ (parts0 : List Rep) (mids0 : List Nat) (acc : Nat) (parts1 : List Rep) (mids1 : List Nat)
+    (l T : Nat), chainOk parts0 mids0 acc → lastLen parts0 = .fin l → T = l + mids0.getLast?.getD acc →
+    0 < l → chainOk parts1 mids1 T → chainOk (parts0 ++ parts1) (mids0 ++ [T] ++ mids1) acc
+  | [], _, _, _, _, _, _, h, _, _, _, _ => by simp [chainOk] at h
+  | [r], [], acc, parts1, mids1, l, T, h, hl, hT, hpos, h1 => by
+      simp only [lastLen] at hl
+      simp only [List.getLast?_nil, Option.getD_none] at hT
+      cases parts1 with
+      | nil => simp [chainOk] at h1
+      | cons p ps =>
+        simp only [List.cons_append, List.nil_append, chainOk]
+        exact ⟨⟨l, hl, hpos, by omega⟩, h1⟩
+  | [r], m :: ms, _, _, _, _, _, h, _, _, _, _ => by simp [chainOk] at h
+  | r :: r2 :: rs, [], _, _, _, _, _, h, _, _, _, _ => by simp [chainOk] at h
+  | r :: r2 :: rs, m :: ms, acc, parts1, mids1, l, T, h, hl, hT, hpos, h1 => by
+      simp only [chainOk] at h
+      obtain ⟨hfirst, hrest⟩ := h
+      rw [lastLen_cons r (r2 :: rs) (by simp)] at hl
+      rw [getLast_getD] at hT
+      have ih := chainOk_append (r2 :: rs) ms m parts1 mids1 l T hrest hl hT hpos h1
+      simp only [List.cons_append, chainOk] at ih ⊢
+      exact ⟨hfirst, ih⟩
+
+
+theorem chainOk_last : ∀ (parts : List Rep) (mids : List Nat) (acc : Nat), chainOk parts mids acc →
+    (match lastLen parts with
+     | .fin l => 0 < l ∧ l + mids.getLast?.getD acc < USIZE
+     | .inf => True
+     | .panic _ => False)
+  | [], _, _, h => by simp [chainOk] at h
+  | [r], [], acc, h => by
+      simp only [chainOk] at h
+      simp only [lastLen]
+      cases hr : r.len with
+      | fin n => rw [hr] at h; simp only [List.getLast?_nil, Option.getD_none] at h ⊢; omega
+      | inf => trivial
+      | panic _ => rw [hr] at h; exact h
+  | [r], m :: ms, _, h => by simp [chainOk] at h
+  | r :: r2 :: rs, [], _, h => by simp [chainOk] at h
+  | r :: r2 :: rs, m :: ms, acc, h => by
+      simp only [chainOk] at h
+      rw [lastLen_cons r (r2 :: rs) (by simp), getLast_getD]
+      exact chainOk_last (r2 :: rs) ms m h.2
+
+theorem chain_len_eq (parts : List Rep) (mids : List Nat) (n : Nat) (h : (Rep.chain parts mids).len = .fin n) :
+    ∃ l m, lastLen parts = .fin l ∧ mids.getLast? = some m ∧ n = l + m := by
+  simp only [Rep.len] at h
+  cases hl : lastLen parts with
+  | fin l =>
+    cases hm : mids.getLast? with
+    | none => rw [hl, hm] at h; simp at h
+    | some m => rw [hl, hm] at h; simp only [Len.fin.injEq] at h; exact ⟨l, m, rfl, rfl, h.symm⟩
+  | inf => rw [hl] at h; cases hm : mids.getLast? <;> rw [hm] at h <;> simp at h
+  | panic _ => rw [hl] at h; simp at h
+
+/-- what `chain` guarantees of its operands before splicing -/
+def chainPre (a b : Rep) (len0 : Nat) : Prop :=
+  a.wf ∧ b.wf ∧ a.len = .fin len0 ∧ 0 < len0 ∧
+  (match b.len with | .fin n => 0 < n ∧ len0 + n < USIZE | .inf => True | .panic _ => False)
+
+theorem chainOk_single (b : Rep) (len0 : Nat)
+    (h : match b.len with | .fin n => 0 < n ∧ len0 + n < USIZE | .inf => True | .panic _ => False) :
+    chainOk [b] [] len0 := by
+  simp only [chainOk]
+  cases hb : b.len with
+  | fin n => rw [hb] at h; simp only [] at h ⊢; omega
+  | inf => trivial
+  | panic _ => rw [hb] at h; exact h
+
+theorem chainOk_of_chain_right (parts1 : List Rep) (mids1 : List Nat) (len0 : Nat)
+    (hb : (Rep.chain parts1 mids1).wf)
+    (h : match (Rep.chain parts1 mids1).len with | .fin n => 0 < n ∧ len0 + n < USIZE | .inf => True | .panic _ => False) :
+    chainOk parts1 (mids1.map (· + len0)) len0 := by
+  simp only [Rep.wf] at hb
+  have := chainOk_shift parts1 mids1 0 len0 hb.2.1 (by
+    cases hl : lastLen parts1 with
+    | fin l =>
+      simp only []
+      cases hm : mids1.getLast? with
+      | none => simp [Rep.len, hl, hm] at h
+      | some m => simp only [Rep.len, hl, hm] at h; simp only [Option.getD_some]; omega
+    | inf => trivial
+    | panic _ => trivial)
+  simpa using this
+
+theorem chainOf_wf (a b : Rep) (len0 : Nat) (h : chainPre a b len0) : (Rep.chainOf a b len0).wf := by
+  obtain ⟨ha, hb, hla, hpa, hlb⟩ := h
+  by_cases hca : ∃ p m, a = Rep.chain p m
+  · obtain ⟨p0, m0, rfl⟩ := hca
+    obtain ⟨l, m, hl, hm, hn⟩ := chain_len_eq p0 m0 len0 hla
+    have hwa := ha
+    simp only [Rep.wf] at hwa
+    have hlast := chainOk_last p0 m0 0 hwa.2.1
+    rw [hl] at hlast
+    have hT : len0 = l + m0.getLast?.getD 0 := by rw [hm]; simpa using hn
+    by_cases hcb : ∃ p m, b = Rep.chain p m
+    · obtain ⟨p1, m1, rfl⟩ := hcb
+      have hwb := hb
+      simp only [Rep.wf] at hwb
+      simp only [Rep.chainOf, Rep.wf]
+      refine ⟨wfAll_append _ _ hwa.1 hwb.1, ?_, by simp; omega⟩
+      exact chainOk_append p0 m0 0 p1 _ l len0 hwa.2.1 hl hT hlast.1 (chainOk_of_chain_right p1 m1 len0 hb hlb)
+    · have e : Rep.chainOf (Rep.chain p0 m0) b len0 = Rep.chain (p0 ++ [b]) (m0 ++ [len0]) := by
+        cases b <;> first | rfl | exact absurd ⟨_, _, rfl⟩ hcb
+      rw [e]
+      simp only [Rep.wf]
+      refine ⟨wfAll_append _ _ hwa.1 (by simp [wfAll, hb]), ?_, by simp; omega⟩
+      have := chainOk_append p0 m0 0 [b] [] l len0 hwa.2.1 hl hT hlast.1 (chainOk_single b len0 hlb)
+      simpa using this
+  · by_cases hcb : ∃ p m, b = Rep.chain p m
+    · obtain ⟨p1, m1, rfl⟩ := hcb
+      have e : Rep.chainOf a (Rep.chain p1 m1) len0 = Rep.chain (a :: p1) (len0 :: m1.map (· + len0)) := by
+        cases a <;> first | rfl | exact absurd ⟨_, _, rfl⟩ hca
+      rw [e]
+      have hwb := hb
+      simp only [Rep.wf] at hwb
+      simp only [Rep.wf, wfAll]
+      refine ⟨⟨ha, hwb.1⟩, ?_, by simp; omega⟩
+      have h1 := chainOk_of_chain_right p1 m1 len0 hb hlb
+      cases p1 with
+      | nil => simp [chainOk] at h1
+      | cons q qs =>
+        simp only [chainOk]
+        exact ⟨⟨len0, hla, hpa, by omega⟩, h1⟩
+    · have e : Rep.chainOf a b len0 = Rep.chain [a, b] [len0] := by
+        cases a <;> cases b <;> first | rfl | exact absurd ⟨_, _, rfl⟩ hca | exact absurd ⟨_, _, rfl⟩ hcb
+      rw [e]
+      simp only [Rep.wf, wfAll, chainOk]
+      exact ⟨⟨ha, hb, trivial⟩, ⟨⟨len0, hla, hpa, by omega⟩, chainOk_single b len0 hlb⟩, by simp⟩
+
+
+theorem isEmpty_fin (r : Rep) (n : Nat) (h : r.len = .fin n) : r.isEmpty = decide (n = 0) := by
+  simp only [Rep.isEmpty, h]
+  cases n <;> simp
+
+theorem isEmpty_inf (r : Rep) (h : r.len = .inf) : r.isEmpty = false := by
+  simp only [Rep.isEmpty, h]
+
+/-- `XSequence::chain` on well-formed operands: never a panic; an empty operand yields the other one; an error
+value exactly when the left operand is infinite or the total length does not fit `usize`; otherwise a
+well-formed chain (the spliced parts and shifted midpoints satisfy the invariant again) -/
+theorem mkChain_wf (a b : Rep) (ha : a.wf) (hb : b.wf) :
+    match a.mkChain b with
+    | .new r => r.wf
+    | .left => (den b).len = some 0
+    | .right => (den a).len = some 0
+    | .err _ => ((den a).len = none ∧ (den b).len ≠ some 0) ∨
+        (∃ n m, (den a).len = some n ∧ (den b).len = some m ∧ USIZE ≤ n + m)
+    | .panic _ => False := by
+  unfold Rep.mkChain
+  rcases len_cases a ha with ⟨n, a1, a2⟩ | ⟨a1, a2⟩ <;> rcases len_cases b hb with ⟨m, b1, b2⟩ | ⟨b1, b2⟩
+  · rw [a1, b1]
+    simp only [isEmpty_fin a n a1, isEmpty_fin b m b1]
+    by_cases hn : n = 0 <;> by_cases hm : m = 0
+    · simp [hn, hm, Rep.wf]
+    · simp [hn, hm, a2]
+    · simp [hn, hm, b2]
+    · simp only [hn, hm, decide_false, Bool.false_eq_true, if_false]
+      by_cases hov : n + m ≥ USIZE
+      · simp only [hov, decide_true, if_true]
+        right; exact ⟨n, m, a2, b2, hov⟩
+      · simp only [hov, decide_false, Bool.false_eq_true, if_false]
+        exact chainOf_wf a b n ⟨ha, hb, a1, by omega, by rw [b1]; simp only []; omega⟩
+  · rw [a1, b1]
+    simp only [isEmpty_fin a n a1, isEmpty_inf b b1]
+    by_cases hn : n = 0
+    · simp [hn, a2]
+    · simp only [hn, decide_false, Bool.false_eq_true, if_false]
+      exact chainOf_wf a b n ⟨ha, hb, a1, by omega, by rw [b1]; trivial⟩
+  · rw [a1, b1]
+    simp only [isEmpty_inf a a1, isEmpty_fin b m b1]
+    by_cases hm : m = 0
+    · simp [hm, b2]
+    · simp only [hm, decide_false, Bool.false_eq_true, if_false]
+      left; exact ⟨a2, by rw [b2]; simpa using hm⟩
+  · rw [a1, b1]
+    simp only [isEmpty_inf a a1, isEmpty_inf b b1, Bool.false_eq_true, if_false]
+    left; exact ⟨a2, by rw [b2]; simp⟩
+
+
+/-! ## concatenation of denotations -/
+theorem SemEq.refl (a : Sem) : SemEq a a := ⟨rfl, fun _ _ _ => rfl⟩
+theorem SemEq.trans {a b c : Sem} (h1 : SemEq a b) (h2 : SemEq b c) : SemEq a c :=
+  ⟨h1.1.trans h2.1, fun i hi hv => (h1.2 i hi hv).trans (h2.2 i hi (by unfold Sem.valid at hv ⊢; rw [← h1.1]; exact hv))⟩
+
+theorem append_nil (x : Sem) : SemEq (x.append .nil) x := by
+  cases hx : x.len with
+  | none => exact ⟨by rw [append_len_none hx, hx], fun i _ _ => append_el_none hx i⟩
+  | some n =>
+    refine ⟨by rw [append_len_some hx, hx]; simp [Sem.nil], fun i _ hv => ?_⟩
+    have : i < n := by simpa [Sem.valid, optValid, append_len_some hx, Sem.nil] using hv
+    exact append_el_lt hx i this
+
+theorem append_congr_right (x : Sem) {y y' : Sem} (h : SemEq y y') : SemEq (x.append y) (x.append y') := by
+  cases hx : x.len with
+  | none => exact ⟨by rw [append_len_none hx, append_len_none hx], fun i _ _ => by rw [append_el_none hx, append_el_none hx]⟩
+  | some n =>
+    refine ⟨by rw [append_len_some hx, append_len_some hx, h.1], fun i hi hv => ?_⟩
+    by_cases hlt : i < n
+    · rw [append_el_lt hx i hlt, append_el_lt hx i hlt]
+    · rw [append_el_ge hx i (by omega), append_el_ge hx i (by omega)]
+      apply h.2 _ (by omega)
+      simp only [Sem.valid, append_len_some hx] at hv
+      unfold Sem.valid
+      cases hy : y.len with
+      | none => trivial
+      | some m => rw [hy] at hv; simp only [Option.map, optValid] at hv ⊢; omega
+
+theorem append_assoc (x y z : Sem) : SemEq ((x.append y).append z) (x.append (y.append z)) := by
+  cases hx : x.len with
+  | none =>
+    have h1 : (x.append y).len = none := append_len_none hx
+    refine ⟨by rw [append_len_none h1, append_len_none hx], fun i _ _ => ?_⟩
+    rw [append_el_none h1, append_el_none hx, append_el_none hx]
+  | some n =>
+    cases hy : y.len with
+    | none =>
+      have h1 : (x.append y).len = none := by rw [append_len_some hx, hy]; rfl
+      have h2 : (y.append z).len = none := append_len_none hy
+      refine ⟨by rw [append_len_none h1, append_len_some hx, h2]; rfl, fun i _ _ => ?_⟩
+      rw [append_el_none h1]
+      by_cases hlt : i < n
+      · rw [append_el_lt hx i hlt, append_el_lt hx i hlt]
+      · rw [append_el_ge hx i (by omega), append_el_ge hx i (by omega), append_el_none hy]
+    | some m =>
+      have h1 : (x.append y).len = some (n + m) := by rw [append_len_some hx, hy]; rfl
+      have h2 : (y.append z).len = z.len.map (m + ·) := append_len_some hy
+      refine ⟨?_, fun i _ _ => ?_⟩
+      · rw [append_len_some h1, append_len_some hx, h2]
+        cases z.len <;> simp [Option.map]; omega
+      · by_cases hlt : i < n
+        · rw [append_el_lt h1 i (by omega), append_el_lt hx i hlt, append_el_lt hx i hlt]
+        · by_cases hlt2 : i < n + m
+          · rw [append_el_lt h1 i hlt2, append_el_ge hx i (by omega), append_el_ge hx i (by omega),
+              append_el_lt hy _ (by omega)]
+          · rw [append_el_ge h1 i (by omega), append_el_ge hx i (by omega), append_el_ge hy _ (by omega)]
+            congr 1; omega
+
+theorem denList_append : ∀ (l1 l2 : List Rep), denList (l1 ++ l2) = denList l1 ++ denList l2
+  | [], _ => rfl
+  | r :: rs, l2 => by simp only [List.cons_append, denList, denList_append rs l2]
+
+theorem nil_append (y : Sem) : SemEq (Sem.nil.append y) y := by
+  have hx : Sem.nil.len = some 0 := rfl
+  refine ⟨by rw [append_len_some hx]; cases y.len <;> simp [Option.map], fun i _ _ => ?_⟩
+  rw [append_el_ge hx i (by omega)]; rfl
+
+theorem concat_append : ∀ (l1 l2 : List Sem), SemEq (Sem.concat (l1 ++ l2)) ((Sem.concat l1).append (Sem.concat l2))
+  | [], l2 => by
+      simp only [List.nil_append, Sem.concat]
+      exact ⟨(nil_append _).1.symm, fun i hi hv => ((nil_append _).2 i hi (by
+        unfold Sem.valid at hv ⊢; rw [(nil_append (Sem.concat l2)).1]; exact hv)).symm⟩
+  | s :: ss, l2 => by
+      simp only [List.cons_append, Sem.concat]
+      have ih := concat_append ss l2
+      have h1 := append_congr_right s ih
+      have h2 := append_assoc s (Sem.concat ss) (Sem.concat l2)
+      refine SemEq.trans h1 ⟨h2.1.symm, fun i hi hv => (h2.2 i hi (by
+        unfold Sem.valid at hv ⊢; rw [h2.1]; exact hv)).symm⟩
+
+
+theorem SemEq.symm {a b : Sem} (h : SemEq a b) : SemEq b a :=
+  ⟨h.1.symm, fun i hi hv => (h.2 i hi (by unfold Sem.valid at hv ⊢; rw [h.1]; exact hv)).symm⟩
+
+/-- the spliced chain denotes the concatenation of the two lists, in all four arms -/
+theorem chainOf_den (a b : Rep) (len0 : Nat) : SemEq (den (Rep.chainOf a b len0)) ((den a).append (den b)) := by
+  by_cases hca : ∃ p m, a = Rep.chain p m
+  · obtain ⟨p0, m0, rfl⟩ := hca
+    by_cases hcb : ∃ p m, b = Rep.chain p m
+    · obtain ⟨p1, m1, rfl⟩ := hcb
+      simp only [Rep.chainOf, den, denList_append]
+      exact concat_append _ _
+    · have e : Rep.chainOf (Rep.chain p0 m0) b len0 = Rep.chain (p0 ++ [b]) (m0 ++ [len0]) := by
+        cases b <;> first | rfl | exact absurd ⟨_, _, rfl⟩ hcb
+      rw [e]
+      simp only [den, denList_append]
+      refine SemEq.trans (concat_append _ _) (append_congr_right _ ?_)
+      simp only [denList, Sem.concat]
+      exact append_nil _
+  · by_cases hcb : ∃ p m, b = Rep.chain p m
+    · obtain ⟨p1, m1, rfl⟩ := hcb
+      have e : Rep.chainOf a (Rep.chain p1 m1) len0 = Rep.chain (a :: p1) (len0 :: m1.map (· + len0)) := by
+        cases a <;> first | rfl | exact absurd ⟨_, _, rfl⟩ hca
+      rw [e]
+      simp only [den, denList, Sem.concat]
+      exact SemEq.refl _
+    · have e : Rep.chainOf a b len0 = Rep.chain [a, b] [len0] := by
+        cases a <;> cases b <;> first | rfl | exact absurd ⟨_, _, rfl⟩ hca | exact absurd ⟨_, _, rfl⟩ hcb
+      rw [e]
+      simp only [den, denList, Sem.concat]
+      exact append_congr_right _ (append_nil _)
+
+
+theorem mkChain_new (a b r : Rep) (h : a.mkChain b = .new r) :
+    (r = .empty ∧ a.isEmpty = true ∧ b.isEmpty = true) ∨ ∃ n, r = Rep.chainOf a b n := by
+  unfold Rep.mkChain at h
+  repeat' split at h
+  all_goals first
+    | (injection h with h; subst h; first | (left; exact ⟨rfl, by assumption, by assumption⟩) | (right; exact ⟨_, rfl⟩))
+    | cases h
+
+theorem isEmpty_den (r : Rep) (h : r.wf) (he : r.isEmpty = true) : (den r).len = some 0 := by
+  rcases len_cases r h with ⟨n, h1, h2⟩ | ⟨h1, h2⟩
+  · rw [isEmpty_fin r n h1] at he; rw [h2]; simpa using he
+  · rw [isEmpty_inf r h1] at he; cases he
+
 end XrayModel.Seq
